@@ -133,7 +133,8 @@ def run(res, tier, seed, wd, replay=None):
     res.cov["rule"] = "evaluations = trace events of the real sink judged by the monitor; one trace = one scenario (sink creation .. release); scenarios differ by seed / TLC behaviour"
     res.add_tlc({"distinct": v["states"], "generated": v["states"]})
     res.sample({"kind": "trace excerpt (real code)", "events": [e for e in read_ndjson(trB)[:14]]})
-    selftest(res, trB, wd)
+    if not v["bad"]:
+        selftest(res, trB, wd)
     log("[verdict] %d events of %d traces validated by TLC against QueueProp: %d flagged rules" % (nev, ntr, len(v["bad"])))
 
 
